@@ -66,11 +66,12 @@ def run_sampler(ch, N, kwargs, sample_kwargs, n_samples, initial=None, scale=1.0
         skw = dict(sample_kwargs)
         if initial is not None:
             labels, edges = initial
+            # built so that the order of first appearance of the nodes is NOT their sorted order
             h0 = Hypergraph()
-            for n in labels:
+            for e in reversed(edges):
+                h0.add_edge(tuple(reversed(e)))
+            for n in reversed(labels):
                 h0.add_node(n)
-            for e in edges:
-                h0.add_edge(e)
             skw["initial_hyg"] = h0
         gen = sp.sample(**skw)
         outs = [next(gen) for _ in range(n_samples)]
